@@ -133,6 +133,7 @@ func c18Gen(tier string, seed int64) []fw.Case {
 				"read-idle-expiry-then-reset-zero", "read-idle-expiry-then-reset-future", "read-past-deadline-then-reset", "read-active-expiry",
 				"write-idle-expiry-then-reset-zero", "write-idle-expiry-then-reset-future", "write-past-deadline-then-reset", "write-active-expiry",
 				"both-idle-expiry-setdeadline", "read-deadline-moved-while-blocked", "read-future-deadline-not-reached", "write-idle-expiry-then-only-read-reset",
+				"read-idle-expiry-with-partial-message", "write-idle-expiry-empty-write",
 			} {
 				add(c18Desc{Kind: "deadline", Role: role, DL: sc}, fmt.Sprintf("deadline/%s/%s", role, sc))
 			}
@@ -646,6 +647,56 @@ func c18Deadline(r *fw.R, d c18Desc) {
 			set(writeSide, time.Now().Add(30*time.Second))
 		}
 		if !roundTrip("reset") {
+			return
+		}
+	case "read-idle-expiry-with-partial-message":
+		// part of a message has been read; then the read deadline passes while no Read is active
+		peer.Send(wire.Data(wire.OpBinary, true, []byte("01234567")))
+		nc.SetReadDeadline(time.Now().Add(20 * time.Second))
+		if n, err := io.ReadFull(nc, buf[:4]); err != nil || string(buf[:n]) != "0123" {
+			r.Violate("C18/stream-read-failed", fmt.Sprintf("%s: first part: %q %v", what, buf[:n], err), "")
+			return
+		}
+		nc.SetReadDeadline(time.Now().Add(10 * time.Millisecond))
+		for t0 := time.Now(); obs.readIdle.Load() == 0 && obs.readActive.Load() == 0 && time.Since(t0) < 5*time.Second; {
+			time.Sleep(2 * time.Millisecond)
+		}
+		if obs.readIdle.Load() == 0 {
+			r.Violate("C18/idle-deadline-wrong-branch", fmt.Sprintf("%s: no Read was in flight when the deadline passed, observed idle=%d active=%d", what, obs.readIdle.Load(), obs.readActive.Load()), "")
+			return
+		}
+		r.Count("deadline_idle_branch_seen", 1)
+		for i := 0; i < 2; i++ {
+			n, err := nc.Read(buf[:4])
+			if !isDeadlineErr(err) {
+				r.Violate("C18/idle-deadline-call-not-failing/partial-message", fmt.Sprintf("%s: Read %d after the idle deadline passed returned %q, %v - want a deadline error although the rest of a message is buffered", what, i+1, buf[:n], err), "")
+				return
+			}
+		}
+		nc.SetReadDeadline(time.Time{})
+		if n, err := io.ReadFull(nc, buf[:4]); err != nil || string(buf[:n]) != "4567" {
+			r.Violate("C18/connection-unusable-after-idle-deadline/partial-message", fmt.Sprintf("%s: after the reset the rest of the message read as %q, %v", what, buf[:n], err), "")
+			return
+		}
+		if !roundTrip("partial-message") {
+			return
+		}
+	case "write-idle-expiry-empty-write":
+		nc.SetWriteDeadline(time.Now().Add(10 * time.Millisecond))
+		for t0 := time.Now(); obs.writeIdle.Load() == 0 && time.Since(t0) < 5*time.Second; {
+			time.Sleep(2 * time.Millisecond)
+		}
+		r.Count("deadline_idle_branch_seen", 1)
+		if _, err := nc.Write(nil); !isDeadlineErr(err) {
+			r.Violate("C18/idle-deadline-call-not-failing/empty-write", fmt.Sprintf("%s: an empty Write after the idle write deadline passed returned %v", what, err), "")
+			return
+		}
+		if _, err := nc.Write([]byte("x")); !isDeadlineErr(err) {
+			r.Violate("C18/idle-deadline-call-not-failing", fmt.Sprintf("%s: Write returned %v", what, err), "")
+			return
+		}
+		nc.SetWriteDeadline(time.Time{})
+		if !roundTrip("empty-write") {
 			return
 		}
 	case "write-idle-expiry-then-only-read-reset":
